@@ -360,11 +360,23 @@ pub fn number_from_string(string: &str, rule: Rule) -> Result<Number> {
                 Number::BigInt(no_prefix.to_owned())
             }
         }
-        Rule::integer => Number::Integer(as_str),
+        // A literal without a suffix that does not fit an `int` is a `bigint`, wherever it
+        // stands: as an operand of a non-constant expression it is emitted as written.
+        Rule::integer => {
+            if as_str.parse::<i32>().is_ok() {
+                Number::Integer(as_str)
+            } else {
+                Number::BigInt(as_str)
+            }
+        }
         Rule::hex_int => {
             let as_hex = i128::from_str_radix(&as_str[2..], 16)?.to_string();
 
-            Number::Integer(as_hex)
+            if as_hex.parse::<i32>().is_ok() {
+                Number::Integer(as_hex)
+            } else {
+                Number::BigInt(as_hex)
+            }
         }
         Rule::float => {
             if let Some(float_of_int) = as_str.strip_suffix(['F', 'f']) {
